@@ -130,6 +130,8 @@ class Tracer:
                 rec["branches"][bname] = 0
                 if len(found) > occ:
                     rec["branch_lines"].setdefault(found[occ], []).append(bname)
+                    if len(found) > 1 and occ == 0 and not isinstance(branches[bname], tuple):
+                        self.ctx.notes.append("named branch %s.%s: needle matches %d lines, first one used" % (name, bname, len(found)))
                 else:
                     self.ctx.notes.append("named branch %s.%s not located in the current source" % (name, bname))
         self.anchors[name] = rec
